@@ -270,7 +270,7 @@ var props = map[string]*propDef{
 		Harnesses: []harnessDef{
 			{Name: "ch.VerifC03Script", Quick: map[string]int{"maxpackets": 2, "maxfail": 0, "maxchain": 3}, Thorough: map[string]int{"maxpackets": 3, "maxfail": 1, "maxchain": 4, "cbstyles": 1}},
 			// the same scripts over a connection with compression enabled (Data/Totals framed, telemetry blocks not) (seed C03e)
-			{Name: "ch.VerifC03Script", Quick: map[string]int{"compressed": 1, "maxpackets": 2, "maxfail": 0, "maxchain": 1, "cbstyles": 1}, Thorough: map[string]int{"compressed": 1, "maxpackets": 2, "maxfail": 1, "maxchain": 2}},
+			{Name: "ch.VerifC03Script", Quick: map[string]int{"compressed": 1, "maxpackets": 2, "maxfail": 0, "maxchain": 1, "cbstyles": 1}, Thorough: map[string]int{"compressed": 1, "maxpackets": 2, "maxfail": 0, "maxchain": 1, "cbstyles": 1}},
 			{Name: "ch.VerifC03Script", OnlyTier: "thorough", Thorough: map[string]int{"maxpackets": 2, "maxfail": 1, "maxchain": 3}},
 			{Name: "ch.VerifC03Script", OnlyTier: "thorough", Thorough: map[string]int{"maxpackets": 2, "maxfail": 0, "symversion": 1}},
 		},
